@@ -37,21 +37,36 @@ def partition(seed, K, T, kind):
 _PLANS = {}
 
 
-def dhtv_for(F):
-    """shipped default for F=257; otherwise a custom plan inside the domain of C16 (every later
-    segment overlaps the covered band by >= 2/3, verified on alignment_plan itself)."""
-    import pb_bss.permutation_alignment as pa
+def plan_cfg(F):
+    """(start, width, shift) of the DHTV stage: the shipped default for F=257; otherwise a custom plan inside the
+    domain of C16 (every later segment overlaps the covered band by >= 2/3), chosen on the REFERENCE plan so that
+    the scene does not depend on the implementation under test."""
     from mc.props import c16
+    from mc.refmodels import alignment as RA
     if F == 257:
-        return pa.DHTVPermutationAlignment.from_stft_size(512)
+        return (70, 100, 20)
     if F not in _PLANS:
-        cands = [c for c in c16.qualifying_plans(F)
-                 if F // 4 <= c[0] <= F // 2 and F // 4 <= c[1] <= F // 2 and c[2] >= 2]
+        cands = []
+        for start in range(F // 4, F // 2 + 1):
+            for width in range(max(3, F // 4), F // 2 + 1):
+                if start + width > F:
+                    continue
+                for shift in range(2, width // 3 + 1):
+                    ov, _ = c16.plan_overlaps(RA.plan(F, start, width, shift, 20, 2), F)
+                    if all(o >= 2 / 3 - 1e-12 for o in ov):
+                        cands.append((start, width, shift))
         if not cands:
             from mc.core import HarnessError
             raise HarnessError(f'no in-domain DHTV plan for F={F}')
         _PLANS[F] = max(cands, key=lambda c: (c[2], -c[1]))
-    cfg = _PLANS[F]
+    return _PLANS[F]
+
+
+def dhtv_for(F):
+    import pb_bss.permutation_alignment as pa
+    if F == 257:
+        return pa.DHTVPermutationAlignment.from_stft_size(512)
+    cfg = plan_cfg(F)
     return pa.DHTVPermutationAlignment(stft_size=2 * (F - 1), segment_start=cfg[0], segment_width=cfg[1],
                                        segment_shift=cfg[2], main_iterations=20, sub_iterations=2)
 
@@ -104,7 +119,15 @@ def run_scene(key):
     part = np.full((K, T), 0.4 / (K - 1))
     part[owner, np.arange(T)] = 0.6
     aligner = dhtv_for(F)
-    field = perm_field(seed, K, F, family, aligner.alignment_plan)
+    from mc.refmodels import alignment as RA
+    ref_plan = RA.plan(F, *plan_cfg(F), 20, 2)
+    try:
+        impl_plan = [list(p_) for p_ in aligner.alignment_plan]
+    except Exception as e:  # noqa
+        return viol(f'DHTV alignment_plan raised {e!r}')
+    if impl_plan != ref_plan:
+        return viol(f'the DHTV stage does not use the documented segment plan: {impl_plan} instead of {ref_plan}')
+    field = perm_field(seed, K, F, family, ref_plan)
     init = np.stack([part[list(field[f])] for f in range(F)])     # (F, K, T)
     trainer = d.CACGMMTrainer() if model == 'cacgmm' else d.CWMMTrainer()
     try:
